@@ -21,7 +21,7 @@ Fixpoint run_v0 (s : state) (acts : list action) : option state :=
 (* two plain transactions world -> account 1 *)
 Definition rq_pay : request :=
   {| rq_kind := KCreate; rq_ik := 0%N; rq_ref := 0%N; rq_dry := false; rq_postings := [(world, 1%N, 10%Z)];
-     rq_unb := false; rq_revert := 0; rq_target_tx := None |}.
+     rq_unb := false; rq_revert := 0; rq_target_tx := None; rq_meta := 0%N |}.
 (* both writers run up to the append: resolved -> locked -> balances -> ran -> append.enter *)
 Definition to_append : list action :=
   [AStart 0 rq_pay; AStart 1 rq_pay;
@@ -46,10 +46,10 @@ Definition disk_ids (o : option state) : list (nat * option nat) :=
    missing transaction is refused. *)
 Definition rq_preview : request :=
   {| rq_kind := KCreate; rq_ik := 0%N; rq_ref := 0%N; rq_dry := true; rq_postings := [(world, 1%N, 10%Z)];
-     rq_unb := false; rq_revert := 0; rq_target_tx := None |}.
+     rq_unb := false; rq_revert := 0; rq_target_tx := None; rq_meta := 0%N |}.
 Definition rq_meta_missing : request :=
   {| rq_kind := KSaveMeta; rq_ik := 0%N; rq_ref := 0%N; rq_dry := false; rq_postings := [];
-     rq_unb := false; rq_revert := 0; rq_target_tx := Some 7 |}.
+     rq_unb := false; rq_revert := 0; rq_target_tx := Some 7; rq_meta := 0%N |}.
 Definition sched_ok : list action :=
   to_append ++
   [AResume 0; AResume 0; AResume 0; AResume 0; AResume 1; AResume 1; AResume 1; AResume 1; APersistOk; ACrash;
@@ -62,26 +62,51 @@ Definition resps (o : option state) : list (tid * option response) :=
 Definition owners (o : option state) : list tid :=
   match o with Some s => map e_owner (persisted s) | None => [] end.
 
-(* ---- known finding "idempotency key stored by another kind of write" --------------------------------------- *)
+(* ---- an idempotency key reused with a different request is refused (Properties/C06.v, C06_key_reuse_refused and following) ------ *)
 (* a transaction with key 5 is written and acknowledged; then SaveMeta with the same key: the key is found, the
-   stored entry is a transaction, SaveMeta answers success (and publishes) although nothing was written *)
+   stored entry is a transaction, not the outcome of this SaveMeta ([is_outcome_of] is false): the request is refused
+   with [EKeyReused], nothing is written or published. (Before the repair of executionContext.run SaveMeta answered
+   success and published an event although nothing was written: the former finding "idempotency key stored by another
+   kind of write".) *)
 Definition rq_pay_k : request :=
   {| rq_kind := KCreate; rq_ik := 5%N; rq_ref := 0%N; rq_dry := false; rq_postings := [(world, 1%N, 10%Z)];
-     rq_unb := false; rq_revert := 0; rq_target_tx := None |}.
+     rq_unb := false; rq_revert := 0; rq_target_tx := None; rq_meta := 0%N |}.
 Definition rq_meta_k : request :=
   {| rq_kind := KSaveMeta; rq_ik := 5%N; rq_ref := 0%N; rq_dry := false; rq_postings := [];
-     rq_unb := false; rq_revert := 0; rq_target_tx := None |}.
+     rq_unb := false; rq_revert := 0; rq_target_tx := None; rq_meta := 0%N |}.
 Definition sched_ik_kinds : list action :=
   [AStart 0 rq_pay_k; AResume 0; AResume 0; AResume 0; AResume 0; AResume 0; AResume 0; AResume 0; AResume 0;
    AResume 0; AResume 0; APersistOk; AResume 0; AResume 0; AResume 0;
    AStart 1 rq_meta_k; AResume 1; AResume 1].
+
+(* the same key, the same KIND of write, another request *)
+Definition rq_sm (ik m : N) : request :=
+  {| rq_kind := KSaveMeta; rq_ik := ik; rq_ref := 0%N; rq_dry := false; rq_postings := [];
+     rq_unb := false; rq_revert := 0; rq_target_tx := None; rq_meta := m |}.
+Definition rq_rv (ik : N) (x : nat) : request :=
+  {| rq_kind := KRevert; rq_ik := ik; rq_ref := 0%N; rq_dry := false; rq_postings := [];
+     rq_unb := false; rq_revert := x; rq_target_tx := None; rq_meta := 0%N |}.
+(* SaveMeta (key 6, target and content 1) is written and acknowledged; SaveMeta with key 6 and ANOTHER target /
+   content (2) is refused; SaveMeta with key 6 and the same target and content is a replay *)
+Definition sched_sm_stored : list action :=
+  [AStart 1 (rq_sm 6 1)] ++ repeat (AResume 1) 5 ++ [APersistOk] ++ repeat (AResume 1) 2.
+Definition sched_sm_other_target : list action := sched_sm_stored ++ [AStart 2 (rq_sm 6 2); AResume 2; AResume 2].
+Definition sched_sm_same_target : list action := sched_sm_other_target ++ [AStart 3 (rq_sm 6 1); AResume 3; AResume 3].
+(* three transactions world -> account 1 (tx 0, 1, 2); request 3 reverts tx 1 with key 8 and is acknowledged tx 3;
+   request 4 carries key 8 for a revert of tx 2: refused, tx 2 is not reverted *)
+Definition pay_ack (t : tid) : list action :=
+  [AStart t rq_pay] ++ repeat (AResume t) 8 ++ [APersistOk] ++ repeat (AResume t) 3.
+Definition sched_rv_stored : list action :=
+  pay_ack 0 ++ pay_ack 1 ++ pay_ack 2 ++
+  [AStart 3 (rq_rv 8 1)] ++ repeat (AResume 3) 12 ++ [APersistOk] ++ repeat (AResume 3) 3.
+Definition sched_rv_other_revert : list action := sched_rv_stored ++ [AStart 4 (rq_rv 8 2)] ++ repeat (AResume 4) 4.
 
 (* ---- cancellation of a request that waits for its account locks (Properties/C06.v, C06_cancel_example) ------- *)
 (* request 0 funds account 1 with 100 and is acknowledged; request 1 (1 -> 2, 100) takes the locks of accounts 1, 2;
    request 2 (1 -> 3, 100, idempotency key 7, reference 9) reserves its key and reference and queues behind it *)
 Definition rq_c (ik ref : N) (ps : list posting) : request :=
   {| rq_kind := KCreate; rq_ik := ik; rq_ref := ref; rq_dry := false; rq_postings := ps;
-     rq_unb := false; rq_revert := 0; rq_target_tx := None |}.
+     rq_unb := false; rq_revert := 0; rq_target_tx := None; rq_meta := 0%N |}.
 Definition sched_queued : list action :=
   [AStart 0 (rq_c 0 0 [(world, 1%N, 100%Z)])] ++ repeat (AResume 0) 8 ++ [APersistOk] ++ repeat (AResume 0) 3 ++
   [AStart 1 (rq_c 0 0 [(1%N, 2%N, 100%Z)]); AStart 2 (rq_c 7 9 [(1%N, 3%N, 100%Z)]); AResume 1] ++
@@ -111,10 +136,10 @@ Definition sched_fund : list action :=
 (* SaveMeta / DeleteMetadata (with idempotency keys 5 / 6) on the MISSING transaction 7 *)
 Definition rq_sm_missing : request :=
   {| rq_kind := KSaveMeta; rq_ik := 5%N; rq_ref := 0%N; rq_dry := false; rq_postings := [];
-     rq_unb := false; rq_revert := 0; rq_target_tx := Some 7 |}.
+     rq_unb := false; rq_revert := 0; rq_target_tx := Some 7; rq_meta := 0%N |}.
 Definition rq_dm_missing : request :=
   {| rq_kind := KDelMeta; rq_ik := 6%N; rq_ref := 0%N; rq_dry := false; rq_postings := [];
-     rq_unb := false; rq_revert := 0; rq_target_tx := Some 7 |}.
+     rq_unb := false; rq_revert := 0; rq_target_tx := Some 7; rq_meta := 0%N |}.
 (* GetTransaction answers "not found": refused *)
 Definition sched_sm_notfound : list action := sched_fund ++ [AStart 3 rq_sm_missing; AResume 3; AResume 3].
 (* the same read FAILS: SaveMeta ignores the error, goes through the append critical section, is written and
@@ -127,6 +152,6 @@ Definition sched_dm_readfail : list action := sched_fund ++ [AStart 3 rq_dm_miss
    holds key 8 (parked at "ik.taken"): the revert answers [RErr EStoreRead] and key 8 stays reserved -- by 1 *)
 Definition rq_rv_k8 : request :=
   {| rq_kind := KRevert; rq_ik := 8%N; rq_ref := 0%N; rq_dry := false; rq_postings := [];
-     rq_unb := false; rq_revert := 0; rq_target_tx := None |}.
+     rq_unb := false; rq_revert := 0; rq_target_tx := None; rq_meta := 0%N |}.
 Definition sched_rev_readfail : list action :=
   sched_fund ++ [AStart 1 (rq_c 8 0 [(world, 1%N, 10%Z)]); AStart 4 rq_rv_k8; AResumeReadFail 4].
